@@ -84,6 +84,7 @@ static void check(const Case &c) {
         int64_t n = 0;
         if (gridPathCellsSize(c.h, c.q, &n) == E_SUCCESS && n >= 100) { COUNT("pair.long_path(>=100 cells)"); NONTRIVIAL(); }
         if (n >= 400) COUNT("pair.long_path(>=400 cells)");
+        if (n >= 2000) COUNT("pair.long_path(>=2000 cells)");
         COUNT("pair");
         if (c.arm == 100) COUNT("pair.chord_past_a_pentagon(both ends in base cells around it)");
         if (c.arm == 101) COUNT("pair.all_pairs_within_K_of_a_pentagon");
@@ -120,6 +121,7 @@ static Case draw() {
         LatLng p;
         cellToLatLng(c.h, &p);
         double steps = rpick({1, 2}) == 0 ? ri(0, 5) : ri(5, 600);
+        if (res >= 6 && rpick({5, 1}) == 1) steps = gen::logU(600, 6000);  // very long lines (thousands of cells): products of coordinate x length leave 32 bits
         if (res <= 3) steps = std::min(steps, res == 0 ? 3.0 : res == 1 ? 8.0 : res == 2 ? 20.0 : 60.0);
         LatLng qv = gen::offset(p, steps * gen::cellWidth(res) * 0.8, runit() * 2 * gen::PI);
         c.q = gen::cellAt(qv, res);
